@@ -86,6 +86,14 @@ def runEntryOp (inp out : Json) : Json :=
        [{ prop := "C18", code := "malformed_output:" ++ shell, detail := String.ofList (stdout.toList.take 600) }] else []) ++
     (if !crashed && exit == 0 && args.length ≥ 2 && sh.isNone && body.trimAscii.toString != "" then
        [{ prop := "C18", code := "unknown_shell_output", detail := String.ofList (stdout.toList.take 300) }] else [])
+  -- a configuration file that cannot be loaded must be reported (C06); colliding keys must not make the output vary (C10)
+  let cfg := jstr (jget (jget inp "env") "XDG_CONFIG_HOME")
+  let badCfg := ["trailing1", "trailing2", "trailing3", "truncated", "wrongtype"].any (fun v => cfg == "$FIX/cfg/" ++ v)
+  let fails := fails ++
+    (if badCfg && args.length ≥ 3 && !crashed && exit == 0 && (shell == "export" || shell == "elvish" || shell == "zsh") && !hasSub stdout "failed to load config" then
+       [{ prop := "C06", code := "config_error_not_reported", detail := s!"{cfg}: {String.ofList (stdout.toList.take 300)}" }] else []) ++
+    (if jbool out "repeatDiffers" then
+       [{ prop := "C10", code := "output_varies", detail := s!"{cfg}: the same call gave different bytes" }] else [])
   verdict true "" fails
     [("shell", Json.str (if sh.isSome then shell else "(unknown)")), ("nargs", Json.num args.length), ("ancestor", Json.str (jstr (jget inp "ancestor"))),
      ("empty", Json.bool (body == "")), ("stderr", Json.bool (stderr != ""))]
